@@ -10,6 +10,12 @@
 //!   c20_slot global-child <seed>
 //!       one round on emit::runtime::shared_slot(); events on stdout.
 //!
+//! A panic in the code under test is data: every initialiser call and every observer
+//! operation runs under catch_unwind and the panic is the logged result.  A round that does
+//! not finish within the watchdog time ends the run: exit code 3 and <dir>/hang.ndjson (the
+//! round's events + a Hang event) when a thread is stuck inside a call of the code under
+//! test, TOOL-ERROR (exit 2) when it is stuck in the harness's own bookkeeping.
+//!
 //! Every public call logs a call-start event *before* it is made and a call-end event
 //! *after* it returned, numbered from one SeqCst counter; events are written in the order
 //! of these numbers.  Components are tagged with the initialiser's index: every invocation
@@ -40,6 +46,10 @@ const MIXED: u64 = 98; // one component answered with two different tags
 const UNOBS: u64 = 99; // component not exercised by the operation
 
 thread_local! {
+    /// what a tagged emitter answered to blocking_flush in the current operation (0 = not asked)
+    static FLUSH_ANSWER: std::cell::Cell<u64> = const { std::cell::Cell::new(0) };
+}
+thread_local! {
     /// tags that answered, per component, during the current operation of this thread
     static SEEN: RefCell<[Vec<u64>; 5]> = RefCell::new(Default::default());
 }
@@ -68,9 +78,13 @@ impl Emitter for TEmitter {
     fn emit<E: ToEvent>(&self, _: E) {
         self.0.hit(0);
     }
-    fn blocking_flush(&self, _: Duration) -> bool {
+    fn blocking_flush(&self, timeout: Duration) -> bool {
         self.0.hit(0);
-        true
+        // the answer depends on tag and timeout, so that both values come back and a
+        // timeout altered on the way shows
+        let answer = (self.0.tag as u128 + timeout.as_nanos()) % 2 == 0;
+        FLUSH_ANSWER.with(|a| a.set(if answer { 2 } else { 1 }));
+        answer
     }
 }
 impl Filter for TFilter {
@@ -120,6 +134,7 @@ impl Rng for TRng {
 }
 
 fn clear_seen() {
+    FLUSH_ANSWER.with(|a| a.set(0));
     SEEN.with(|s| s.borrow_mut().iter_mut().for_each(|v| v.clear()));
 }
 
@@ -152,7 +167,7 @@ struct InitPlan {
 }
 #[derive(Clone)]
 struct ObsPlan {
-    ops: Vec<(&'static str, u64)>, // operation, spin before it
+    ops: Vec<(&'static str, u64, usize, usize)>, // operation, spin before it, flush entry, flush timeout
     skew: u64,
     gated: bool, // wait for the first initialiser to be about to call, then skew
 }
@@ -183,25 +198,50 @@ impl SlotRef {
 enum Ev {
     InitCall(usize, &'static str),
     InitRet(usize, &'static str, bool),
-    ObsCall(usize, &'static str),
-    ObsRet(usize, [u64; 5], bool, bool, bool),
+    /// observer, op, flush entry point ("" for other ops), flush timeout label
+    ObsCall(usize, &'static str, &'static str, &'static str),
+    /// observer, tags, en, fl (value flush returned), pan, fa (0 = no tagged emitter was
+    /// asked to flush, 1 = it answered false, 2 = it answered true)
+    ObsRet(usize, [u64; 5], bool, bool, bool, u64),
+    Hang(usize, String),
 }
 impl Ev {
     fn json(&self) -> String {
         match self {
             Ev::InitCall(i, k) => format!(r#"{{"e":"InitCall","i":{i},"k":"{k}"}}"#),
             Ev::InitRet(i, r, own) => format!(r#"{{"e":"InitRet","i":{i},"r":"{r}","own":{own}}}"#),
-            Ev::ObsCall(o, op) => format!(r#"{{"e":"ObsCall","o":{o},"op":"{op}"}}"#),
-            Ev::ObsRet(o, t, en, fl, pan) => format!(
-                r#"{{"e":"ObsRet","o":{o},"tags":[{},{},{},{},{}],"en":{en},"fl":{fl},"pan":{pan}}}"#,
+            Ev::ObsCall(o, op, via, tmo) => format!(r#"{{"e":"ObsCall","o":{o},"op":"{op}","via":"{via}","tmo":"{tmo}"}}"#),
+            Ev::ObsRet(o, t, en, fl, pan, fa) => format!(
+                r#"{{"e":"ObsRet","o":{o},"tags":[{},{},{},{},{}],"en":{en},"fl":{fl},"pan":{pan},"fa":{fa}}}"#,
                 t[0], t[1], t[2], t[3], t[4]
             ),
+            Ev::Hang(t, what) => format!(r#"{{"e":"Hang","t":{t},"in":"{what}"}}"#),
         }
     }
 }
 type Log = Vec<(u64, Ev)>;
 
-fn run_init(plan: &RoundPlan, i: usize, p: &InitPlan, log: &mut Log) {
+/// Per-thread log the main thread can read while the thread is stuck, and the thread's
+/// position: 0 idle / harness bookkeeping, 1 inside a call of the code under test.
+struct ThreadLog {
+    log: Mutex<Log>,
+    in_call: std::sync::atomic::AtomicU64,
+}
+impl ThreadLog {
+    fn push(&self, e: (u64, Ev)) {
+        self.log.lock().unwrap_or_else(|e| e.into_inner()).push(e);
+    }
+    fn call_start(&self, ev: Ev) {
+        self.push((seq(), ev));
+        self.in_call.store(1, SeqCst);
+    }
+    fn call_end(&self, ev: Ev) {
+        self.in_call.store(0, SeqCst);
+        self.push((seq(), ev));
+    }
+}
+
+fn run_init(plan: &RoundPlan, i: usize, p: &InitPlan, log: &ThreadLog) {
     let tag = Tag { tag: i as u64, used: plan.used.clone() };
     let slot = plan.slot.get();
     spin(p.skew);
@@ -216,27 +256,24 @@ fn run_init(plan: &RoundPlan, i: usize, p: &InitPlan, log: &mut Log) {
             .with_clock(TClock(tag.clone()))
             .with_rng(TRng(tag.clone()))
     };
-    log.push((seq(), Ev::InitCall(i, p.kind)));
+    let me = i as u64;
+    log.call_start(Ev::InitCall(i, p.kind));
     // harness-level signal (not instrumentation): gated observers start right now
     plan.go.store(true, SeqCst);
+    // Every form runs under catch_unwind: a panic is a result like any other (the
+    // specification says which form may panic, and when).
     // (result, the references handed back are to this initialiser's own components)
-    let (r, own) = match p.kind {
+    let r = std::panic::catch_unwind(std::panic::AssertUnwindSafe(|| match p.kind {
         "try_init_slot" => {
             let r = if plan.global { setup().try_init() } else { setup().try_init_slot(slot) };
             match r {
-                Some(init) => ("some", init.emitter().0.tag == i as u64 && init.ctxt().0.tag == i as u64),
+                Some(init) => ("some", init.emitter().0.tag == me && init.ctxt().0.tag == me),
                 None => ("nil", true),
             }
         }
         "init_slot" => {
-            let r = std::panic::catch_unwind(std::panic::AssertUnwindSafe(|| {
-                let init = if plan.global { setup().init() } else { setup().init_slot(slot) };
-                init.emitter().0.tag == i as u64 && init.ctxt().0.tag == i as u64
-            }));
-            match r {
-                Ok(own) => ("ok", own),
-                Err(_) => ("panic", true),
-            }
+            let init = if plan.global { setup().init() } else { setup().init_slot(slot) };
+            ("ok", init.emitter().0.tag == me && init.ctxt().0.tag == me)
         }
         "init" => {
             let rt = Runtime::build(
@@ -249,21 +286,31 @@ fn run_init(plan: &RoundPlan, i: usize, p: &InitPlan, log: &mut Log) {
             match slot.init(rt) {
                 Some(rt) => (
                     "some",
-                    rt.emitter().0.tag == i as u64
-                        && rt.filter().0.tag == i as u64
-                        && rt.ctxt().0.tag == i as u64
-                        && rt.clock().0.tag == i as u64
-                        && rt.rng().0.tag == i as u64,
+                    rt.emitter().0.tag == me
+                        && rt.filter().0.tag == me
+                        && rt.ctxt().0.tag == me
+                        && rt.clock().0.tag == me
+                        && rt.rng().0.tag == me,
                 ),
                 None => ("nil", true),
             }
         }
         k => tool_error(&format!("unknown init kind {k}")),
-    };
-    log.push((seq(), Ev::InitRet(i, r, own)));
+    }));
+    let (r, own) = r.unwrap_or(("panic", true));
+    log.call_end(Ev::InitRet(i, r, own));
 }
 
-fn run_obs(plan: &RoundPlan, o: usize, p: &ObsPlan, log: &mut Log) {
+const FLUSH_VIA: [&str; 3] = ["emitter", "runtime", "global"];
+const FLUSH_TMO: [(&str, Duration); 5] = [
+    ("zero", Duration::ZERO),
+    ("1ns", Duration::from_nanos(1)),
+    ("1ms", Duration::from_millis(1)),
+    ("1s", Duration::from_secs(1)),
+    ("max", Duration::MAX),
+];
+
+fn run_obs(plan: &RoundPlan, o: usize, p: &ObsPlan, log: &ThreadLog) {
     let slot = plan.slot.get();
     if p.gated {
         let mut n = 0u64;
@@ -273,13 +320,17 @@ fn run_obs(plan: &RoundPlan, o: usize, p: &ObsPlan, log: &mut Log) {
         }
     }
     spin(p.skew);
-    for (op, pause) in &p.ops {
+    for (op, pause, via, tmo) in &p.ops {
         spin(*pause);
+        // emit::blocking_flush exists for the global slot only
+        let via = if *op != "flush" { "" } else if plan.global { FLUSH_VIA[*via % 3] } else { FLUSH_VIA[*via % 2] };
+        let (tmo_label, timeout) = FLUSH_TMO[*tmo % 5];
+        let tmo_label = if *op == "flush" { tmo_label } else { "" };
         clear_seen();
         let mut tags = [UNOBS; 5];
         let mut en = false;
         let mut fl = true;
-        log.push((seq(), Ev::ObsCall(o, op)));
+        log.call_start(Ev::ObsCall(o, op, via, tmo_label));
         let r = std::panic::catch_unwind(std::panic::AssertUnwindSafe(|| match *op {
             "is_enabled" => {
                 en = slot.is_enabled();
@@ -313,8 +364,13 @@ fn run_obs(plan: &RoundPlan, o: usize, p: &ObsPlan, log: &mut Log) {
                 }
             }
             "flush" => {
-                let rt = slot.get();
-                fl = rt.emitter().blocking_flush(Duration::from_millis(1));
+                fl = match via {
+                    // the emitter component of the runtime
+                    "emitter" => slot.get().emitter().blocking_flush(timeout),
+                    // the runtime as an Emitter (what Init / emit::blocking_flush go through)
+                    "runtime" => Emitter::blocking_flush(slot.get(), timeout),
+                    _ => emit::blocking_flush(timeout),
+                };
                 tags[0] = seen(0);
             }
             "probe" => {
@@ -333,8 +389,8 @@ fn run_obs(plan: &RoundPlan, o: usize, p: &ObsPlan, log: &mut Log) {
             }
             k => tool_error(&format!("unknown observer op {k}")),
         }));
-        let s = seq();
-        log.push((s, Ev::ObsRet(o, tags, en, fl, r.is_err())));
+        let fa = FLUSH_ANSWER.with(|a| a.get());
+        log.call_end(Ev::ObsRet(o, tags, en, fl, r.is_err(), fa));
     }
 }
 
@@ -390,9 +446,9 @@ fn plan_round(rng: &mut vh_common::Rng, slot: SlotRef, max_obs: u64, global: boo
                         4 => "emit",
                         _ => OPS[rng.below(5) as usize],
                     };
-                    (op, if rng.below(3) == 0 { rng.below(40) } else { 0 })
+                    (op, if rng.below(3) == 0 { rng.below(40) } else { 0 }, rng.below(6) as usize, rng.below(5) as usize)
                 } else {
-                    (OPS[rng.below(5) as usize], if rng.below(2) == 0 { 0 } else { rng.below(300) })
+                    (OPS[rng.below(5) as usize], if rng.below(2) == 0 { 0 } else { rng.below(300) }, rng.below(6) as usize, rng.below(5) as usize)
                 }
             })
             .collect();
@@ -423,46 +479,131 @@ fn write_round(out: &mut impl std::io::Write, n: u64, logs: &mut Vec<Log>, used:
 struct Shared {
     plan: Mutex<Option<Arc<RoundPlan>>>,
     start: Barrier,
-    end: Barrier,
-    logs: Vec<Mutex<Log>>,
+    done: Mutex<usize>,
+    done_cv: std::sync::Condvar,
+    logs: Vec<ThreadLog>,
+    harness_panic: Mutex<Option<String>>,
+}
+
+/// A round that did not finish within the watchdog time.
+struct Stuck {
+    round: u64,
+    events: Vec<(u64, Ev)>,
+    /// (thread, it is inside a call of the code under test, description)
+    threads: Vec<(usize, bool, String)>,
+}
+
+fn watchdog() -> Duration {
+    Duration::from_millis(std::env::var("VERIF_C20_WATCHDOG_MS").ok().and_then(|s| s.parse().ok()).unwrap_or(10_000))
 }
 
 /// Persistent pool: threads 0..3 are initialisers 1..3, threads 3..6 observers 1..3.
-fn run_rounds(rng: &mut vh_common::Rng, rounds: u64, max_obs: u64, global: bool, mut sink: impl FnMut(u64, &mut Vec<Log>, &Used)) {
+fn run_rounds(
+    rng: &mut vh_common::Rng,
+    rounds: u64,
+    max_obs: u64,
+    global: bool,
+    mut sink: impl FnMut(u64, &mut Vec<Log>, &Used),
+) -> Result<(), Stuck> {
     let shared = Arc::new(Shared {
         plan: Mutex::new(None),
         start: Barrier::new(7),
-        end: Barrier::new(7),
-        logs: (0..6).map(|_| Mutex::new(Vec::new())).collect(),
+        done: Mutex::new(0),
+        done_cv: std::sync::Condvar::new(),
+        logs: (0..6).map(|_| ThreadLog { log: Mutex::new(Vec::new()), in_call: AtomicU64::new(0) }).collect(),
+        harness_panic: Mutex::new(None),
     });
+    // machinery self-test only: VERIF_C20_FAKE_HANG=code|harness wedges observer 1 in round 3
+    let fake_hang = std::env::var("VERIF_C20_FAKE_HANG").ok();
     let mut handles = Vec::new();
     for t in 0..6usize {
         let sh = shared.clone();
-        handles.push(std::thread::spawn(move || loop {
-            sh.start.wait();
-            let plan = sh.plan.lock().unwrap().clone();
-            let Some(plan) = plan else { break };
-            let mut log = Vec::new();
-            if t < 3 {
-                if let Some(p) = &plan.inits[t + 1] {
-                    run_init(&plan, t + 1, p, &mut log);
+        let fake_hang = fake_hang.clone();
+        handles.push(std::thread::spawn(move || {
+            let mut round = 0u64;
+            loop {
+                sh.start.wait();
+                let plan = sh.plan.lock().unwrap().clone();
+                let Some(plan) = plan else { break };
+                // the calls into the code under test are caught where they are made; a panic
+                // arriving here is the harness's own
+                let r = std::panic::catch_unwind(std::panic::AssertUnwindSafe(|| {
+                    if t == 3 && round == 3 {
+                        match fake_hang.as_deref() {
+                            Some("code") => {
+                                sh.logs[t].call_start(Ev::ObsCall(1, "flush", "runtime", "max"));
+                                loop {
+                                    std::thread::sleep(Duration::from_secs(1));
+                                }
+                            }
+                            Some("harness") => loop {
+                                std::thread::sleep(Duration::from_secs(1));
+                            },
+                            _ => {}
+                        }
+                    }
+                    if t < 3 {
+                        if let Some(p) = &plan.inits[t + 1] {
+                            run_init(&plan, t + 1, p, &sh.logs[t]);
+                        }
+                    } else if let Some(p) = &plan.obs[t - 2] {
+                        run_obs(&plan, t - 2, p, &sh.logs[t]);
+                    }
+                }));
+                if let Err(e) = r {
+                    let msg = e.downcast_ref::<&str>().map(|s| s.to_string()).or_else(|| e.downcast_ref::<String>().cloned()).unwrap_or_default();
+                    *sh.harness_panic.lock().unwrap() = Some(format!("thread {t}: {msg}"));
                 }
-            } else if let Some(p) = &plan.obs[t - 2] {
-                run_obs(&plan, t - 2, p, &mut log);
+                drop(plan);
+                round += 1;
+                *sh.done.lock().unwrap() += 1;
+                sh.done_cv.notify_all();
             }
-            *sh.logs[t].lock().unwrap() = log;
-            drop(plan);
-            sh.end.wait();
         }));
     }
+    let limit = watchdog();
     for n in 0..rounds {
         let slot = if global { SlotRef::Global } else { SlotRef::Fresh(Arc::new(AmbientSlot::new())) };
         let plan = Arc::new(plan_round(rng, slot, max_obs, global));
         *shared.plan.lock().unwrap() = Some(plan.clone());
+        *shared.done.lock().unwrap() = 0;
         shared.start.wait();
-        shared.end.wait();
+        let deadline = std::time::Instant::now() + limit;
+        let mut done = shared.done.lock().unwrap();
+        while *done < 6 {
+            let now = std::time::Instant::now();
+            if now >= deadline {
+                break;
+            }
+            done = shared.done_cv.wait_timeout(done, deadline - now).unwrap().0;
+        }
+        let finished = *done == 6;
+        drop(done);
+        let mut logs: Vec<Log> =
+            shared.logs.iter().map(|m| std::mem::take(&mut *m.log.lock().unwrap_or_else(|e| e.into_inner()))).collect();
+        if let Some(p) = shared.harness_panic.lock().unwrap().take() {
+            tool_error(&format!("panic in the harness's own code, round {n}: {p}"));
+        }
+        if !finished {
+            // which threads have not reported, and where they are
+            let mut events: Vec<(u64, Ev)> = logs.drain(..).flatten().collect();
+            events.sort();
+            let mut threads = Vec::new();
+            for t in 0..6usize {
+                let in_call = shared.logs[t].in_call.load(SeqCst) == 1;
+                let last = events.iter().rev().find(|(_, e)| match e {
+                    Ev::InitCall(i, _) | Ev::InitRet(i, _, _) => t < 3 && *i == t + 1,
+                    Ev::ObsCall(o, ..) | Ev::ObsRet(o, ..) => t >= 3 && *o == t - 2,
+                    Ev::Hang(..) => false,
+                });
+                let pending = matches!(last, Some((_, Ev::InitCall(..))) | Some((_, Ev::ObsCall(..))));
+                if in_call || pending {
+                    threads.push((t, in_call, last.map(|(_, e)| e.json().replace('"', "'")).unwrap_or_default()));
+                }
+            }
+            return Err(Stuck { round: n, events, threads });
+        }
         *shared.plan.lock().unwrap() = None;
-        let mut logs: Vec<Log> = shared.logs.iter().map(|m| std::mem::take(&mut *m.lock().unwrap())).collect();
         sink(n, &mut logs, &plan.used);
     }
     *shared.plan.lock().unwrap() = None;
@@ -470,6 +611,31 @@ fn run_rounds(rng: &mut vh_common::Rng, rounds: u64, max_obs: u64, global: bool,
     for h in handles {
         let _ = h.join();
     }
+    Ok(())
+}
+
+/// Report a stuck round: the round so far + one Hang event per thread inside a call of the
+/// code under test go to `out`; exit 3 (hang of the code under test) or TOOL-ERROR.
+fn report_stuck(st: Stuck, out: &mut impl std::io::Write) -> ! {
+    let in_code: Vec<_> = st.threads.iter().filter(|t| t.1).collect();
+    if in_code.is_empty() {
+        tool_error(&format!(
+            "round {} did not finish within {:?} and no thread is inside a call of the code under test (stuck: {:?})",
+            st.round,
+            watchdog(),
+            st.threads.iter().map(|t| t.0).collect::<Vec<_>>()
+        ));
+    }
+    writeln!(out, r#"{{"e":"Reset","n":{}}}"#, st.round).unwrap();
+    for (_, e) in &st.events {
+        writeln!(out, "{}", e.json()).unwrap();
+    }
+    for (t, _, what) in in_code {
+        writeln!(out, "{}", Ev::Hang(*t, what.clone()).json()).unwrap();
+    }
+    out.flush().unwrap();
+    eprintln!("HANG of the code under test in round {} (watchdog {:?})", st.round, watchdog());
+    std::process::exit(3);
 }
 
 fn main() {
@@ -484,9 +650,17 @@ fn main() {
             let mut files: Vec<_> = (0..shards)
                 .map(|k| std::io::BufWriter::new(std::fs::File::create(format!("{dir}/trace-{k}.ndjson")).unwrap()))
                 .collect();
-            run_rounds(&mut rng, rounds, max_obs, false, |n, logs, used| {
+            let r = run_rounds(&mut rng, rounds, max_obs, false, |n, logs, used| {
                 write_round(&mut files[(n / per) as usize], n, logs, used);
             });
+            if let Err(st) = r {
+                use std::io::Write;
+                for f in files.iter_mut() {
+                    let _ = f.flush();
+                }
+                let mut f = std::fs::File::create(format!("{dir}/hang.ndjson")).unwrap();
+                report_stuck(st, &mut f);
+            }
         }
         Some("global") => {
             let (out, children): (&str, u64) = (&args[2], args[3].parse().unwrap());
@@ -499,6 +673,14 @@ fn main() {
                     .args(["global-child", &(seed.wrapping_mul(1000).wrapping_add(n)).to_string(), &n.to_string()])
                     .output()
                     .unwrap_or_else(|e| tool_error(&format!("spawn child: {e}")));
+                if o.status.code() == Some(3) {
+                    // the child's round hung inside the code under test
+                    f.flush().unwrap();
+                    let dir = std::path::Path::new(out).parent().unwrap();
+                    std::fs::write(dir.join("hang.ndjson"), &o.stdout).unwrap();
+                    eprintln!("{}", String::from_utf8_lossy(&o.stderr));
+                    std::process::exit(3);
+                }
                 if !o.status.success() {
                     tool_error(&format!("child failed: {}", String::from_utf8_lossy(&o.stderr)));
                 }
@@ -511,9 +693,13 @@ fn main() {
             let mut rng = vh_common::Rng(seed.wrapping_mul(0x9E3779B97F4A7C15).wrapping_add(0xC20));
             let stdout = std::io::stdout();
             let mut lock = stdout.lock();
-            run_rounds(&mut rng, 1, 3, true, |_, logs, used| {
+            let r = run_rounds(&mut rng, 1, 3, true, |_, logs, used| {
                 write_round(&mut lock, n, logs, used);
             });
+            if let Err(mut st) = r {
+                st.round = n;
+                report_stuck(st, &mut lock);
+            }
         }
         _ => tool_error("usage: c20_slot rounds <dir> <rounds> <shards> <max_obs> | global <file> <children>"),
     }
